@@ -46,6 +46,9 @@ func runC12(c *Ctx, idx int) {
 			o.acts = []neatmath.NodeActivationType{neatmath.SigmoidSteepenedActivation, neatmath.TanhActivation, neatmath.LinearActivation,
 				neatmath.SigmoidPlainActivation, neatmath.GaussianActivation, neatmath.SineActivation, neatmath.LinearClippedActivation}
 		}
+		if r.Intn(4) == 0 {
+			o.flagForward = pick(r, 0.2, 1.0) // forward links which merely carry the recurrent label: still a feed-forward network
+		}
 		s := genNet(r, o)
 		in := randInputs(r, s.NIn, 2)
 		c12Net(c, s, in, r.Intn(2) == 0)
@@ -201,6 +204,12 @@ func c12Net(c *Ctx, s *netSpec, in []float64, viaGenesis bool) {
 		}
 	}
 
+	// two fast solvers derived from one network object, used side by side on different inputs: each computes the function of
+	// its own inputs
+	if !c12TwoSolvers(c, s, build, steps, detail) {
+		return
+	}
+
 	// mixed sequences on one instance: every mode after every other, with and without a flush in between, each time on a new
 	// input vector
 	if !c12Sequence(c, s, build, steps, detail) {
@@ -333,6 +342,54 @@ func c12Sequence(c *Ctx, s *netSpec, build func() *network.Network, steps int, d
 					inst.name, k, step, got, aerr, want)
 				return false
 			}
+		}
+	}
+	return true
+}
+
+func c12TwoSolvers(c *Ctx, s *netSpec, build func() *network.Network, steps int, detail func([]float64) map[string]interface{}) bool {
+	r := c.G
+	net := build()
+	in1, in2 := randInputs(r, s.NIn, 2), randInputs(r, s.NIn, 2)
+	want1, _, sums1 := s.eval(in1)
+	want2, _, sums2 := s.eval(in2)
+	for v := s.sensors(); v < s.total(); v++ {
+		if (s.Acts[v] == neatmath.StepActivation || s.Acts[v] == neatmath.SignActivation) && (math.Abs(sums1[v]) < 1e-9 || math.Abs(sums2[v]) < 1e-9) {
+			return true
+		}
+	}
+	for _, w := range append(append([]float64{}, want1...), want2...) {
+		if math.IsNaN(w) || math.IsInf(w, 0) {
+			return true
+		}
+	}
+	f1, err1 := net.FastNetworkSolver()
+	f2, err2 := net.FastNetworkSolver()
+	if err1 != nil || err2 != nil {
+		c.Violate("solver-error/fast-build", detail(nil), "FastNetworkSolver failed when called twice on one network: %v / %v", err1, err2)
+		return false
+	}
+	_ = f1.LoadSensors(in1)
+	_ = f2.LoadSensors(in2)
+	_, e1 := f1.ForwardSteps(steps)
+	_, e2 := f2.ForwardSteps(steps)
+	// the standard network the solvers were derived from is used as well
+	_ = net.LoadSensors(in1)
+	_, e3 := net.ForwardSteps(steps)
+	c.Eval(3)
+	c.Count("solver.two_solvers_of_one_network", 1)
+	for _, x := range []struct {
+		name string
+		got  []float64
+		want []float64
+		err  error
+	}{{"first fast solver", f1.ReadOutputs(), want1, e1}, {"second fast solver", f2.ReadOutputs(), want2, e2}, {"the network itself", net.ReadOutputs(), want1, e3}} {
+		if x.err != nil || !vecClose(x.got, x.want, 1e-9, 1e-12) {
+			d := detail(x.got)
+			d["expected"] = x.want
+			d["inputs_first"], d["inputs_second"] = in1, in2
+			c.Violate("solver-value/two-solvers", d, "two fast solvers derived from one network and the network itself used side by side: %s returned %v (%v), topological evaluation of its own inputs gives %v", x.name, x.got, x.err, x.want)
+			return false
 		}
 	}
 	return true
